@@ -66,7 +66,7 @@ class DelayManager(MpfController):
 
         self.delays[name] = (self.machine.clock.schedule_once(
             partial(self._process_delay_callback, name, callback, **kwargs),
-            ms / 1000.0), callback)
+            ms / 1000.0), partial(callback, **kwargs) if kwargs else callback)
 
         return name
 
